@@ -1,7 +1,8 @@
 (** C03 — semantic actions are applied bottom-up, left to right, over the parse tree. *)
 From Coq Require Import List Arith ZArith Lia Bool.
-From Gocc Require Import LR.Parse LR.Validate LR.Trees LR.Eval LR.Sound LR.SoundTop.
+From Gocc Require Import LR.Parse LR.Validate LR.Trees LR.Eval LR.Sound LR.SoundTop Front.Sdt Front.SdtProofs.
 Import ListNotations.
+Close Scope Z_scope.
 
 (** When Parse succeeds with value [v], there is a parse tree [t] of the input such that
     [v] and the log of action calls are exactly the post-order evaluation [eval] of the
@@ -47,3 +48,23 @@ Theorem C03_eval_is_postorder : forall tb sem p kids c log,
   end.
 Proof. exact eval_node. Qed.
 Print Assumptions C03_eval_is_postorder.
+
+(** The rewriting of action expressions (model of Token.SDTVal, compared with the Go function on every run):
+    text without '$' is untouched; $i (i a maximal digit string) becomes X[i]; $Ti becomes X[i] with the token
+    type assertion; $Context becomes C. *)
+Theorem C03_sdt_untouched : forall l, ~ In 36%Z l -> rw l = l.
+Proof. exact rw_no_dollar. Qed.
+Print Assumptions C03_sdt_untouched.
+Theorem C03_sdt_attr : forall d ds rest, Forall (fun b => is_digit b = true) (d :: ds) ->
+  match rest with b :: _ => is_digit b = false | [] => True end ->
+  rw (36%Z :: (d :: ds) ++ rest) = s_x_open ++ (d :: ds) ++ s_close ++ rw rest.
+Proof. exact rw_attr. Qed.
+Print Assumptions C03_sdt_attr.
+Theorem C03_sdt_token : forall d ds rest, Forall (fun b => is_digit b = true) (d :: ds) ->
+  match rest with b :: _ => is_digit b = false | [] => True end ->
+  rw (36%Z :: 84%Z :: (d :: ds) ++ rest) = s_x_open ++ (d :: ds) ++ s_tok ++ rw rest.
+Proof. exact rw_token. Qed.
+Print Assumptions C03_sdt_token.
+Theorem C03_sdt_context : forall rest, rw (36%Z :: s_context ++ rest) = 67%Z :: rw rest.
+Proof. exact rw_context. Qed.
+Print Assumptions C03_sdt_context.
